@@ -200,11 +200,26 @@ func c07Eval(c *fw.Ctx, k c07Case) (sig, desc string, evals int64) {
 	}
 	// the same list built from archive infos that carry stale non-zero offsets (what re-slicing or concatenating
 	// parsed / decoded lists produces): NewHeader must lay it out and validate it all the same
-	if representableInput(k.Archs) && len(k.Archs) > 0 {
+	for pattern := 0; pattern < 3 && representableInput(k.Archs) && len(k.Archs) > 0; pattern++ {
 		stale := make([]wt.ArchiveInfo, len(k.Archs))
 		okBuild := true
 		for i, a := range k.Archs {
-			b := wsp.EncodeHeaderRaw(0, 0, 0, 0, [][3]uint32{{uint32(172 + 36*i), uint32(int32(a.Step)), uint32(a.N)}})[16:]
+			off := uint32(172 + 36*i) // pattern 0: offsets of some other, longer list
+			switch pattern {
+			case 1: // the first archive kept from an earlier list of the same length (correct offset), later ones replaced by fresh infos
+				off = 0
+				if i == 0 {
+					off = uint32(16 + 12*len(k.Archs))
+				}
+			case 2: // the first two kept, the last replaced
+				off = 0
+				if i == 0 {
+					off = uint32(16 + 12*len(k.Archs))
+				} else if i == 1 && k.Archs[0].N > 0 && k.Archs[0].N < 1<<20 {
+					off = uint32(16+12*len(k.Archs)) + uint32(12*k.Archs[0].N)
+				}
+			}
+			b := wsp.EncodeHeaderRaw(0, 0, 0, 0, [][3]uint32{{off, uint32(int32(a.Step)), uint32(a.N)}})[16:]
 			if _, err := stale[i].TakeFrom(b); err != nil {
 				okBuild = false
 			}
@@ -340,6 +355,23 @@ func c07Eval(c *fw.Ctx, k c07Case) (sig, desc string, evals int64) {
 			}
 			if !same {
 				return "C07/reopen/header-differs", fmt.Sprintf("%s: reopened header %s, want %s", ctx, gotStr, wantStr), evals
+			}
+			// the same layout created in place over an existing LARGER file (caller-supplied open flags), synced, reopened
+			os.WriteFile(p, make([]byte, total+1234), 0644)
+			db3, cerr := wt.Create(p, toInfos(k.Archs), wt.AggregationMethod(k.Method), xff, wt.WithOpenFileFlag(os.O_RDWR|os.O_CREATE))
+			evals++
+			if cerr == nil {
+				serr := db3.Sync()
+				db3.Close()
+				db4, oerr := wt.Open(p)
+				if serr != nil || oerr != nil {
+					return "C07/reopen/failed-after-create-over-existing-file", fmt.Sprintf("%s: accepted by Create over an existing larger file, but Sync/Open failed: %v %v", ctx, serr, oerr), evals
+				}
+				if db4.Header().String() != hdr.String() {
+					db4.Close()
+					return "C07/reopen/header-differs-after-create-over-existing-file", ctx, evals
+				}
+				db4.Close()
 			}
 		}
 	}
